@@ -6,12 +6,17 @@ def rapid(name, q, t, bq=60, bt=600, sq=8, st=14, **kw):
     d.update(kw)
     return d
 
+def fuzz(name, target, bt=240, workers=14):
+    """native `go test -fuzz` campaign (thorough tier only); name must start with 'fuzz'"""
+    return {"kind": "fuzz", "name": name, "target": target, "tiers": ("thorough",), "workers": workers,
+            "budget": {"quick": 0, "thorough": bt}, "shards": {"quick": 1, "thorough": 1}}
+
 PROPS = {
     "C01": {
         "level": "exploration",
-        "technique": "property-based testing (rapid): raw bytes, token soup, grammar programs and their mutations; totality via token fuel + isolated worker deadline; location oracle",
+        "technique": "property-based testing (rapid): raw bytes, token soup, grammar programs and their mutations; totality via token fuel + isolated worker deadline; location oracle; thorough tier adds a native coverage-guided fuzz campaign (go test -fuzz) with the same oracle",
         "level_text": "Generated-input search over byte strings (raw, token soup, grammar-derived programs, 1-3 token/byte mutations incl. truncation, hostile dictionary) against a totality + error-kind + location oracle in an isolated worker; finds loops/crashes/mislocated tokens on what is generated, never proves absence.",
-        "campaigns": [rapid("rapid", 120000, 3000000)],
+        "campaigns": [rapid("rapid", 120000, 3000000), fuzz("fuzz-parse", "FuzzC01", 300)],
         "assumptions": [
             "token fuel: a parser that requests more than 64 tokens after the lexer returned EOF is looping",
             "location oracle: input decoded like bufio.ReadRune, lines split at LF; slack of one/two columns at end of input",
@@ -31,9 +36,9 @@ PROPS = {
 
 PROPS["C19"] = {
     "level": "exploration",
-    "technique": "property-based testing (rapid): encode/decode round trip compared by canonical dump; decoder totality on mutated encodings and raw bytes with an EOF-counting reader in an isolated worker",
+    "technique": "property-based testing (rapid): encode/decode round trip compared by canonical dump; decoder totality on mutated encodings and raw bytes with an EOF-counting reader in an isolated worker; thorough tier adds a native coverage-guided fuzz campaign (go test -fuzz) on Decode and on parse+round-trip with the same oracle",
     "level_text": "Round trip over grammar-derived statements (one by one and as lists) with a structural inverse oracle, plus totality of Decode/ReadLinterRequest on byte-level mutations of valid encodings. Exploration: covers generated shapes only.",
-    "campaigns": [rapid("rapid", 60000, 1500000)],
+    "campaigns": [rapid("rapid", 60000, 1500000), fuzz("fuzz-codec", "FuzzC19", 300)],
     "assumptions": [
         "comments, positions, Explicit, LongString/Delimiter, HasParenthesis, HasComma and the else-if keyword spelling are presentational (not compared)",
         "a decoder that provokes more than 1000 EOF reads from its input is looping",
